@@ -51,6 +51,10 @@ CHECKS = {
    technique="exhaustive enumeration of fault-free (query shape x upstream reply shape) exchanges executed against the live in-process DnsService on loopback under a paused clock, judged by an independent DNS decoder",
    text="Each execution starts a fresh real DnsService, sends one real query over UDP or TCP, lets a scripted upstream answer with an independently encoded reply and compares what the client receives, record for record and section for section, with what the upstream sent.",
    note="One exchange per execution, no faults (faults are C07's). A relayed REFUSED over UDP that the REFUSED limiter suppresses is not judged here (C16). [::1] listener and client."),
+ "C07": dict(level="model_checking", engine="E-NET", design="5/C07",
+   technique="deviation-bounded exhaustive exploration (stateless DFS with prefix replay, iterated bounds) of environment event schedules against the live in-process DnsService under a paused clock; choice points: client sends, upstream deliveries and fault variants, ticks, upstream query id and retry jitter (hooks)",
+   text="For 7 scenarios (1-3 queries in flight, UDP/TCP/UDP-pushed-to-TCP, same and different names) every schedule with at most the stated number of deviations (drop, hold until retransmission, duplicate, foreign id, TC, non-FIFO, TCP frame in two parts, upstream close, id collision, max jitter, delay) is executed to a 130 s virtual horizon; each query must get exactly one reply from the address it was sent to, carrying the answer scripted for its own question, SERVFAIL only when the environment really lost its replies. Plus all listener families x client families x transports, and the pure in_addr conversion over 625 addresses.",
+   note="Await-granularity schedules on one worker thread; <=3 queries in flight; 100 ms tick quantum. Harness-side exchange bookkeeping decides when SERVFAIL is acceptable."),
 }
 
 NOT_YET = {
